@@ -51,6 +51,7 @@ func init() {
 	commands["cache-worker"] = cachex.Worker
 	commands["crash"] = crashx.Run
 	commands["crash-child"] = crashx.Child
+	commands["crash-errors"] = crashx.RunErrors
 	commands["clock"] = clockx.Run
 	commands["forge"] = forge.Run
 	commands["forge-worker"] = forge.Worker
